@@ -12,21 +12,22 @@ PROPS["C28"] = {
     "functions": ["common::get_timeout_time", "common::get_slices", "syscall::unix::get_time_limit"],
     "bounds": "get_timeout_time / get_time_limit: loop-free, every input (64-bit secs, 32-bit nanos, every clock "
               "reading; every non-negative timeval). get_slices: slice any non-zero Duration <= u64::MAX/8 s, "
-              "total = q*slice + r with q in 0..=4 (one solver query per q; for q = 3, 4 the quick tier restricts slice seconds to < 2^16, the thorough tier runs them at full width) and r < slice any; plus an inductive "
-              "progress step for every total > slice > 0.",
-    "outside": "get_slices with more than 5 pieces is covered only through the progress step (each iteration strictly "
-               "decreases the remainder), not by an unrolled run; negative timeval fields (rejected by expect()) are "
-               "exercised under C19.",
+              "total = q*slice + r with r < slice any and one solver query per q: quick tier q in 0..=2 at full width "
+              "(up to 3 pieces); thorough tier adds q = 3, 4 with slice seconds < 2^16 (up to 5 pieces); plus an inductive "
+              "progress step for every total > slice > 0 (both tiers).",
+    "outside": "get_slices with more pieces than the unrolled q is covered only through the progress step (each iteration "
+               "strictly decreases the remainder), not by an unrolled run; q = 3, 4 at full 64-bit width (the SAT query did not "
+               "finish within the per-harness cap in round 1; 161-190 s even at 16-bit seconds); negative timeval fields "
+               "(rejected by expect()).",
     "assumptions": ["common::now is replaced by a stub returning an arbitrary u64 (the clock is a symbolic variable)"],
     "groups": [
         {
             "mounts": [("c28_time.rs", "common/mod.rs"), ("c28_limit.rs", "syscall/unix/mod.rs")],
             "harnesses": ["c28_timeout_saturates", "c28_slices_q0", "c28_slices_q1", "c28_slices_q2",
-                          "c28_slices_q3_narrow", "c28_slices_q4_narrow", "c28_slices_progress_step",
-                          "c28_time_limit_all_timeval"],
-            "thorough_harnesses": ["c28_slices_q3_full", "c28_slices_q4_full"],
+                          "c28_slices_progress_step", "c28_time_limit_all_timeval"],
+            "thorough_harnesses": ["c28_slices_q3_narrow", "c28_slices_q4_narrow"],
             "timeout_thorough": 3000,
-            "timeout": 300,
+            "timeout": 600,
             "bounds": "see property bounds",
         },
     ],
@@ -70,9 +71,9 @@ PROPS["C16"] = {
                   "impl_nio_write_buf! as instantiated in syscall::write / send / sendto",
                   "impl_nio_read_iovec! (readv), impl_nio_write_iovec! (writev), NioRecvmsgSyscall, NioSendmsgSyscall",
                   "syscall::unix::{reset_errno,set_errno}"],
-    "bounds": "<= 3 scripted kernel responses per call (then the peer resets), single buffers of 1..=4 bytes (0 in the "
-              "zero-length harnesses), <= 2 iovecs of 0..=2 bytes, symbolic blocking flag, time limit in {none, 15 ms}, "
-              "symbolic wait failure position; unwind 7.",
+    "bounds": "single-buffer calls: <= 3 scripted kernel responses per call (then the peer resets), buffers of 1..=4 bytes (0 in the "
+              "zero-length harnesses), unwind 7; vectored calls: 2 iovecs of 0..=2 bytes, 2 scripted responses (then reset), unwind 4; "
+              "symbolic blocking flag, time limit in {none, 15 ms}, symbolic wait failure position.",
     "outside": "non-socket descriptors (bypass), the io_uring layer, the facade's coroutine branch, pread/pwrite (ESPIPE on sockets), "
                "longer scripts and larger buffers.",
     "assumptions": _IO_ASSUME,
@@ -81,12 +82,13 @@ PROPS["C16"] = {
             "mounts": [("c16_io.rs", "syscall/unix/mod.rs")],
             "harnesses": ["c16_read", "c16_recv", "c16_recvfrom", "c16_write", "c16_send", "c16_sendto",
                           "c16_zero_len_read", "c16_zero_len_recv", "c16_zero_len_write", "c16_zero_len_send"],
-            "timeout": 400, "jobs": 6,
+            "timeout": 600, "jobs": 6,
         },
         {
             "mounts": [("c16_io.rs", "syscall/unix/mod.rs")],
             "harnesses": ["c16_readv", "c16_writev", "c16_recvmsg", "c16_sendmsg"],
-            "timeout": 900, "jobs": 4,
+            # CBMC peaks at ~18 GB RSS on two of these: 2 at a time, 30 GB address-space cap each
+            "timeout": 900, "jobs": 2, "mem_gb": 30,
         },
     ],
 }
@@ -94,7 +96,8 @@ PROPS["C16"] = {
 PROPS["C18"] = {
     "functions": ["impl_nio_read_buf!/impl_nio_write_buf! (read, recv, recvfrom, write, send, sendto): remember blocking flag, "
                   "force O_NONBLOCK, restore on every exit path; would-block handling"],
-    "bounds": "as C16 (<= 3 scripted responses, buffers 0..=4 bytes, both blocking modes).",
+    "bounds": "as C16 (single-buffer: <= 3 scripted responses, buffers 0..=4 bytes; vectored mode-restore harnesses: 2 iovecs of 0..=2 bytes, "
+              "2 responses; both blocking modes).",
     "outside": "that the hook applies process-wide (dynamic linking), real fcntl, the coroutine branch.",
     "assumptions": _IO_ASSUME,
     "groups": [
@@ -102,7 +105,12 @@ PROPS["C18"] = {
             "mounts": [("c16_io.rs", "syscall/unix/mod.rs")],
             "harnesses": ["c18_mode_read", "c18_mode_recv", "c18_mode_recvfrom", "c18_mode_write", "c18_mode_send",
                           "c18_mode_sendto", "c18_nonblocking_read", "c18_nonblocking_send"],
-            "timeout": 400,
+            "timeout": 600,
+        },
+        {
+            "mounts": [("c16_io.rs", "syscall/unix/mod.rs")],
+            "harnesses": ["c18_mode_readv", "c18_mode_writev", "c18_mode_recvmsg", "c18_mode_sendmsg"],
+            "timeout": 900, "jobs": 2, "mem_gb": 30,
         },
     ],
 }
@@ -110,16 +118,18 @@ PROPS["C18"] = {
 PROPS["C17"] = {
     "functions": ["impl_nio_read_iovec! (readv)", "impl_nio_write_iovec! (writev)", "NioRecvmsgSyscall::recvmsg",
                   "NioSendmsgSyscall::sendmsg (rebuild of the iovec array from index/offset, msg_iovlen selection)"],
-    "bounds": "2 caller iovecs of 0..=2 bytes each, <= 3 scripted kernel responses (then reset), unwind 7. The scripted kernel "
-              "reads exactly `count` elements of the array it is handed (an over-long count is an out-of-bounds read CBMC reports) "
-              "and compares them with the caller's unfilled ranges.",
-    "outside": "more / larger iovecs, preadv/pwritev (ESPIPE on sockets), ancillary data.",
+    "bounds": "2 caller iovecs of 0..=2 bytes each, 2 scripted kernel responses (then the peer resets), both blocking modes, time limit in "
+              "{none, 15 ms}, symbolic wait failure; unwind 4. The scripted kernel reads exactly `count` elements of the array it is handed "
+              "(an over-long count is an out-of-bounds read CBMC reports) and maps every non-empty element to its logical position in the "
+              "caller's request: inside one caller buffer, at or after the first byte not yet transferred, in increasing order without overlap.",
+    "outside": "more / larger iovecs (in particular two partial transfers inside one iovec of >= 3 bytes, exercised natively only), "
+               "preadv/pwritev (ESPIPE on sockets), ancillary data.",
     "assumptions": _IO_ASSUME,
     "groups": [
         {
             "mounts": [("c16_io.rs", "syscall/unix/mod.rs")],
             "harnesses": ["c17_readv", "c17_writev", "c17_recvmsg", "c17_sendmsg"],
-            "timeout": 900, "jobs": 4,
+            "timeout": 900, "jobs": 2, "mem_gb": 30,
         },
     ],
 }
@@ -288,3 +298,9 @@ PROPS["C07"]["groups"].append({
     "harnesses": ["c07_scripted_body_path"],
     "timeout": 900,
 })
+
+
+# Properties claimed in MANIFEST.json: their quick checks were run from the committed tree on the unchanged
+# repository and are quiet. The other entries above are development harnesses (runnable through bin/check,
+# not claimed; reasons in not_applicable.py).
+CLAIMED = ["C14", "C16", "C17", "C18", "C20", "C25", "C28"]
